@@ -28,13 +28,13 @@ func init() {
 		RequiredProbes: []string{"detected-by-digest", "detected-by-validation", "reencoded-validates", "signed-envelope-swept"},
 		Checks: []*CheckDef{
 			{
-				Name:    "sweep",
-				Bubble:  false,
-				NumRuns: func(c *Ctx) int64 { return int64(len(c08units(c))) },
-				Plan:    planC08sweep,
-				Exec:    execC08sweep,
+				Name:       "sweep",
+				Bubble:     false,
+				NumRuns:    func(c *Ctx) int64 { return int64(len(c08units(c))) },
+				Plan:       planC08sweep,
+				Exec:       execC08sweep,
 				Exhaustive: func(c *Ctx) bool { return c.Tier == "thorough" },
-				NoShrink: false,
+				NoShrink:   false,
 			},
 			{
 				Name: "reencode",
